@@ -38,7 +38,7 @@ def ordering_matrix(Rs):
     return np.vstack(columns)
 
 
-def matrix_rep(p=0, q=0, r=0, signature=None):
+def matrix_rep(p=0, q=0, r=0, signature=None, blades=None):
     """
     Create the matrix reps of all the basis blades of an algebra.
     These are selected such that the entries in the first column
@@ -48,6 +48,10 @@ def matrix_rep(p=0, q=0, r=0, signature=None):
     :param p: number of positive dimensions.
     :param q: number of negative dimensions.
     :param r: number of null dimensions.
+    :param signature: (optional) the signature of the basis vectors, in their order.
+    :param blades: (optional) the basis-blades in canonical order, each given as the indices
+        (into the signature) of its basis vectors in the order in which they are multiplied.
+        Defaults to the ascending combinations of the basis vectors, ordered by grade.
     :return: sequence of matrix reps for the basis-blades.
     """
     d = p + q + r
@@ -90,6 +94,10 @@ def matrix_rep(p=0, q=0, r=0, signature=None):
         Rs_grade_i = [reduce(lambda x, y: x @ y, comb)
                       for comb in combinations(Es, r=i)]
         Rs.extend(Rs_grade_i)
+
+    if blades is not None:
+        # A custom basis: position and orientation of every basis-blade are those of its spelling.
+        Rs = [reduce(lambda x, y: x @ y, (Es[j] for j in blade), Iden) for blade in blades]
 
     O = ordering_matrix(Rs)
     return [O @ Ri @ O.T for Ri in Rs]
